@@ -65,7 +65,7 @@ class TLCResult(object):
 
 _RE_STATES = re.compile(r"^(\d+) states generated, (\d+) distinct states found")
 _RE_DEPTH = re.compile(r"^The depth of the complete state graph search is (\d+)")
-_RE_INV = re.compile(r"^Error: Invariant (\S+) is violated")
+_RE_INV = re.compile(r"^Error: (?:Invariant (\S+) is violated|The invariant of (\S+) is equal to FALSE)")
 _RE_PROP = re.compile(r"^Error: (Temporal properties were violated|Action property (\S+) is violated|Deadlock reached)")
 _RE_COV = re.compile(r"^<(\w+) line (\d+), col \d+ to line \d+, col \d+ of module (\w+)>: (\d+):(\d+)")
 
@@ -136,7 +136,7 @@ def run_tlc(module, cfg_text, workdir, env=None, workers=16, timeout=1800,
             continue
         m = _RE_INV.match(line)
         if m:
-            res.violated = m.group(1)
+            res.violated = m.group(1) or m.group(2)
             in_cex = True
             continue
         m = _RE_PROP.match(line)
